@@ -234,6 +234,7 @@ template <class M> static bool tryAssign(M&, const M&, long) { return false; }  
 template <class M> static void copyOps(Checker<M>& c, M& m, Model& ref, M& other, Model& oref, Rng& r, int universe, long& nextVal);
 template <> void copyOps<Map<CKey, long> >(Checker<Map<CKey, long> >& c, Map<CKey, long>& m, Model& ref, Map<CKey, long>& other, Model& oref, Rng& r, int universe, long& nextVal) {
   typedef Map<CKey, long> M;
+  if (r.chance(1, 6)) { setctx("Map.operator=/arg=self"); hist.add("m = m (through a second reference)\n"); M& alias = m; m = alias; c.all(m, ref, universe, true); cnt("op_assign_self"); return; }
   switch (r.below(3)) {
   case 0: { setctx("Map.copy-construct"); hist.add("copy-construct\n"); M cp(m); c.all(cp, ref, universe, true); { Model r2(ref); c.opInsert(cp, r2, 0, -1); } setctx("Map.copy-construct/independence"); c.contents(m, ref); cnt("op_copy"); break; }
   case 1: { setctx("Map.operator="); hist.add("other = m\n"); other = m; oref = ref; c.all(other, oref, universe, true); cnt("op_assign"); break; }
@@ -247,6 +248,7 @@ template <> void copyOps<Map<CKey, long> >(Checker<Map<CKey, long> >& c, Map<CKe
 template <> void copyOps<MultiMap<CKey, long> >(Checker<MultiMap<CKey, long> >& c, MultiMap<CKey, long>& m, Model& ref, MultiMap<CKey, long>& other, Model& oref, Rng& r, int universe, long& nextVal) {
   typedef MultiMap<CKey, long> M;
   if (excluded("MultiMap.copy-construct/shallow")) return;
+  if (r.chance(1, 6)) { setctx("MultiMap.operator=/arg=self"); hist.add("m = m (through a second reference)\n"); M& alias = m; if (tryAssign(m, alias, 0)) { c.all(m, ref, universe, true); cnt("op_assign_self"); } return; }
   switch (r.below(2)) {
   case 0: { setctx("MultiMap.copy-construct"); hist.add("copy-construct\n"); { M cp(m); c.all(cp, ref, universe, true); Model r2(ref); c.opInsert(cp, r2, 0, -1); } setctx("MultiMap.copy-construct/independence"); c.all(m, ref, universe, true); cnt("op_copy"); break; }
   default: { setctx("MultiMap.operator="); hist.add("other = m\n"); if (tryAssign(other, m, 0)) { oref = ref; c.all(other, oref, universe, true); cnt("op_assign"); } break; }
